@@ -121,7 +121,7 @@ func (g *fmtGen) scalar(kind string) *fmtVal {
 		}
 		return &fmtVal{T: "int", Ty: ty, V: pattern(ty, x), goTy: kind, lit: fmt.Sprint(x), native: true}
 	case "string":
-		strs := []string{"", " ", "a", "a b", "héllo", "x\ty", "[1 2]", "map[a:1]", "  lead", "ünï", "\xff"}
+		strs := []string{"", " ", "a", "a b", "héllo", "x\ty", "[1 2]", "map[a:1]", "  lead", "ünï", "\xff", "100%", "%d", "5%x %s", "%!v(MISSING)", "\"q\""}
 		s := strs[r.Intn(len(strs))]
 		return &fmtVal{T: "str", S: bytesOf(s), goTy: "string", lit: goStringLit(s, false), native: true}
 	case "float64":
@@ -263,7 +263,7 @@ func init() {
 const fmtStructDecls = "type S1 struct {\n\tA    int\n\tName string\n\tOk   bool\n\tF    float64\n\tB    uint8\n}\n\ntype S2 struct {\n\tX  int8\n\tIn *S1\n}\n\n"
 
 func checkC14(c *Ctx) {
-	c.Rule = "values = seeded random typed value trees: booleans, integers of every width at their boundaries, float64 from <=15 shortest digits x 21 decimal exponents (+ integer-valued, 0, and computed NaN/+-Inf/-0), strings (empty, spaces, non-ASCII, invalid UTF-8, bracket look-alikes), homogeneous slices and single-entry/empty maps nested to depth D, struct references with scalar fields (alone, nested one level, inside slices); each printed through println, fmt.Println with two operands, fmt.Print, fmt.Sprint and Value.String; cyclic graphs (slice, map, struct, mixed, nested in other containers) rendered in a child process; distinct_nontrivial = distinct values that are containers or floats"
+	c.Rule = "values = seeded random typed value trees: booleans, integers of every width at their boundaries, float64 from <=15 shortest digits x 21 decimal exponents (+ integer-valued, 0, and computed NaN/+-Inf/-0), strings (empty, spaces, non-ASCII, invalid UTF-8, bracket look-alikes, percent signs and format verbs, quotes), homogeneous slices and single-entry/empty maps nested to depth D, struct references with scalar fields (alone, nested one level, inside slices); each printed through println, fmt.Println with two operands, fmt.Print, fmt.Sprint and Value.String; cyclic graphs (slice, map, struct, mixed, nested in other containers) rendered in a child process; distinct_nontrivial = distinct values that are containers or floats"
 	c.Assumptions = []string{"GoFmt.tla is calibrated against fmt.Sprint on the native Go value for every value without struct references (struct references are the property's own format)", "floats are limited to <=15 significant digits (always the shortest representation); 16-17 digit values are not covered"}
 	r := rand.New(rand.NewSource(c.Seed))
 	g := &fmtGen{r: r}
